@@ -62,6 +62,11 @@ def model_line(cid, sg: Graph, dg: Graph, opts=None, focus=(), use_shapes=(), rx
     opts = opts or {}
     if rx is None:
         rx = regex_table(sg, dg)
+    with wire.case_cache():
+        return _model_line(cid, sg, dg, opts, focus, use_shapes, rx)
+
+
+def _model_line(cid, sg, dg, opts, focus, use_shapes, rx):
     rx_toks = " ".join("%s %s %s %d" % (wire.esc(p), wire.esc(f) if f else "-", wire.esc(s), 1 if b else 0) for p, f, s, b in rx)
     return "%s validate %s FOCUS %s SHAPES %s SG %s DG %s RX %d %s" % (
         cid, opts_tokens(opts), wire.terms(focus), wire.terms(use_shapes), wire.graph(sg), wire.graph(dg), len(rx), rx_toks)
